@@ -1015,7 +1015,7 @@ class Parsent(object):
                     bodyParser.close()
                     break
                 (yield None)
-        except HTTPException as ex:
+        except (HTTPException, ValueError) as ex:  # ValueError from malformed sizes, urls, ports
             self.errored = True
             self.error = str(ex)
 
